@@ -25,7 +25,7 @@ ASSUMPTIONS = ['own interpolation / slerp reference agrees with the documented b
                'shortest-arc SLERP)', 'rounding bound 1e-7 output units for interpolation at own nodes',
                'at an angle difference of exactly +-180 the closed end -180 is accepted (half-open range and '
                'antisymmetry contradict each other there)']
-REQUIRED_OBS = ['antisymmetry', 'swap_branch_taken', 'self_difference', 'subsample_difference', 'reference_compared',
+REQUIRED_OBS = ['unwrapped_angle_tables', 'unwrapped_angle_series', 'antimeridian_perturbations', 'antisymmetry', 'swap_branch_taken', 'self_difference', 'subsample_difference', 'reference_compared',
                 'angle_range', 'resample_nodes', 'resample_slerp', 'perturb_recovered', 'to180_checked',
                 'series_pairs']
 REQUIRED_CLASSES = {'all': ['equal', 'nested', 'rates', 'partial', 'series', 'angles', 'resample']}
@@ -270,6 +270,31 @@ def run_case(case):
             if len(daa) != len(a) or np.abs(daa.values.astype(float)).max() > TOL:
                 fail('self_difference', f'd(a,a) != 0: max {np.abs(daa.values.astype(float)).max():.3e}')
             pair_checks(a, b, 'equal-index')
+            if 'heading' in cols or 'roll' in cols:
+                # angles stored unwrapped / several turns off (integrated yaw rate, np.unwrap): "all finite angles" - same states
+                au = a.copy()
+                for c in ('heading', 'roll'):
+                    if c in cols:
+                        au[c] = np.rad2deg(np.unwrap(np.deg2rad(a[c].values))) + 360.0 * int(rng.integers(-3, 4))
+                bump('unwrapped_angle_tables')
+                d0 = transform.compute_state_difference(a, b)
+                du = transform.compute_state_difference(au, b)
+                db = transform.compute_state_difference(b, au)
+                check_range(du, 'unwrapped first table')
+                check_range(db, 'unwrapped second table')
+                for c in d0.columns:
+                    e_ = du[c].values.astype(float) - d0[c].values.astype(float)
+                    e2_ = db[c].values.astype(float) + d0[c].values.astype(float)
+                    if c in ('roll', 'pitch', 'heading'):
+                        e_, e2_ = wrap180(e_), wrap180(e2_)
+                    if max(np.abs(e_).max(), np.abs(e2_).max()) > 1e-9:
+                        fail('unwrapped_angles', f'{c}: the difference changes by {max(np.abs(e_).max(), np.abs(e2_).max()):.3e} when the same attitude is stored with unwrapped '
+                             f'angles (heading range {float(au.get("heading", a.iloc[:, 0]).min()):.0f}..{float(au.get("heading", a.iloc[:, 0]).max()):.0f})')
+                        break
+                dself = transform.compute_state_difference(au, au)
+                dsub = transform.compute_state_difference(au, au.iloc[::2]) if len(au) >= 6 else dself
+                if np.abs(dself.values.astype(float)).max() > TOL or np.abs(dsub.values.astype(float)).max() > TOL:
+                    fail('self_difference', f'table with unwrapped angles against itself / its sub-sampling: max {max(np.abs(dself.values.astype(float)).max(), np.abs(dsub.values.astype(float)).max()):.3e}')
         elif cls == 'nested':
             k = int(rng.integers(2, 6))
             a = a_full[cols]
@@ -339,6 +364,37 @@ def run_case(case):
             if (np.abs(wrap180(s_[6:])) > 1e-12).any() or (s_[:6] != 0).any():
                 fail('antisymmetry', f'Series pair: d(a,b)+d(b,a) = {s_.tolist()}')
             check_range(d.to_frame().T, 'series')
+        # the same perturbed state with its angles several turns off: same difference, still in range
+        pu = sim.perturb_pva(pva, e0 * 0.1)
+        dref = transform.compute_state_difference(pu, pva)
+        for which in ('first', 'second'):
+            qa, qb = pu.copy(), pva.copy()
+            tgt = qa if which == 'first' else qb
+            tgt['heading'] += 360.0 * int(rng.choice([-2, -1, 1, 2, 3]))
+            tgt['roll'] += 360.0 * int(rng.integers(-2, 3))
+            du = transform.compute_state_difference(qa, qb)
+            bump('unwrapped_angle_series')
+            check_range(du.to_frame().T, f'series, {which} operand unwrapped')
+            if np.abs(wrap180(du[['roll', 'pitch', 'heading']].values.astype(float) - dref[['roll', 'pitch', 'heading']].values.astype(float))).max() > 1e-9:
+                fail('unwrapped_angles', f'Series pair: angle differences {du[["roll", "pitch", "heading"]].values.tolist()} with the {which} operand stored '
+                     f'{tgt["heading"]:.1f} / {tgt["roll"]:.1f} (several turns off) vs {dref[["roll", "pitch", "heading"]].values.tolist()}')
+        # a state within metres of the antimeridian, perturbed across it: the difference must still recover the error
+        for sgn in (1.0, -1.0):
+            pm = pva.copy()
+            east = abs(float(e0['east'])) + 1.0
+            rp_ = W.radii(pm.lat, pm.alt)[2]
+            pm['lon'] = sgn * (180.0 - float(rng.uniform(0.05, 0.9)) * np.rad2deg(east / rp_))
+            e = e0.copy()
+            e['east'] = sgn * east
+            p = sim.perturb_pva(pm, e)
+            d = transform.compute_state_difference(p, pm)
+            bump('antimeridian_perturbations')
+            npos = np.linalg.norm(e[['north', 'east', 'down']])
+            bound = 4 * npos ** 2 * (1 + tanl) / 6.3e6 + 1e-8
+            rpos = np.abs(d[['north', 'east', 'down']].values.astype(float) - e[['north', 'east', 'down']].values).max()
+            if rpos > bound:
+                fail('perturb_recovery_position', f'state at lon={pm.lon!r} perturbed by {e["east"]:.2f} m east (across the antimeridian; perturbed lon {p.lon!r}): the difference '
+                     f'recovers the position error only to {rpos:.3e} m (bound {bound:.3e})')
         # heading pair across the wrap
         q = pva.copy()
         q['heading'] = 179.0
